@@ -29,9 +29,10 @@ RULE = ("cases = (graph, node weights, link-attribute matrix, ordered pair "
 ASSUMPTIONS = [
     "definitions are evaluated on sub-blocks A[ix_(g1,g2)], D[ix_(g1,g2)], "
     "W[ix_(g1,g2)] of matrices computed by the harness (vp/ref/graph.py)",
-    "closeness-type measures are compared where every relevant distance is "
-    "finite (the substitute for unreachable pairs is a code-level "
-    "convention, not a documented definition)",
+    "closeness with unreachable pairs uses the convention stated in the "
+    "source ('maximum possible path length': N-1 of the whole network for "
+    "cross closeness, of the subnetwork for internal closeness); n.s.i. "
+    "closeness is compared where every relevant distance is finite",
     "on directed networks only the methods with explicit directed support "
     "(degrees, link counts / densities, sub-block extraction) are held to "
     "their definitions; the class docstring restricts the rest to "
@@ -227,18 +228,27 @@ def oracle(case, rec):
     fi = np.isfinite(Di) & offd
     if fi.any():
         _cmp(rec, net, "internal_average_path_length", Di[fi].mean(), g1)
+    # unreachable pairs: "set infinite entries ... to maximum possible path
+    # length" (source comment): N-1 with N = all nodes of the whole network
+    # for cross closeness, the subnetwork's own size for internal closeness
+    cc = N2 / np.where(fin, Dx, n - 1).sum(axis=1)
+    sfx_c = "" if fin.all() else "_unreachable_pairs"
+    _cmp(rec, net, "cross_closeness", cc, g1, g2,
+         clause="cross_closeness" + sfx_c)
+    _cmp(rec, net, "average_cross_closeness", cc.mean(), g1, g2,
+         clause="average_cross_closeness" + sfx_c)
     if fin.all():
-        cc = N2 / Dx.sum(axis=1)
-        _cmp(rec, net, "cross_closeness", cc, g1, g2)
-        _cmp(rec, net, "average_cross_closeness", cc.mean(), g1, g2)
         le = (1.0 / Dx).mean(axis=1)
         ok, v = _cmp(rec, net, "local_efficiency", le, g1, g2)
         ok2, ge = _call(rec, net, "global_efficiency", g1, g2)
         if ok and ok2:
             rec.close(ge, 1.0 / np.mean(v),
                       "global_efficiency_consistent_with_local")
-    if np.isfinite(Di).all() and N1 >= 2:
-        _cmp(rec, net, "internal_closeness", (N1 - 1) / Di.sum(axis=1), g1)
+    if N1 >= 2:
+        ic = (N1 - 1) / np.where(np.isfinite(Di), Di, N1 - 1).sum(axis=1)
+        _cmp(rec, net, "internal_closeness", ic, g1,
+             clause="internal_closeness" + (
+                 "" if np.isfinite(Di).all() else "_unreachable_pairs"))
     if W is not None and np.isfinite(DW[ix]).all():
         _cmp(rec, net, "cross_average_path_length", DW[ix].mean(), g1, g2,
              "la", clause="cross_average_path_length_weighted")
